@@ -160,6 +160,7 @@ def renderBlk (b : Blk) : String :=
 
 def renderPhase : Phase → String
   | .idle => "idle" | .running => "running" | .aborted => "aborted" | .failed => "failed" | .stopped => "stopped"
+  | .stopping => "stopping" | .stoppingF => "stoppingF"
 
 def renderRes : Res → String
   | .ret v => "ret " ++ v.render
@@ -223,6 +224,18 @@ def handle (s : DState) : List String → DState × String
       | some c => ({ circ := c }, renderCirc c)
       | none => (s, "err not-possible")
     | none => (s, "bad-op")
+  | ["stopbegin", t] =>
+    match t.toNat? with
+    | some t =>
+      if s.circ.phase != .running && s.circ.phase != .aborted && s.circ.phase != .failed then (s, "err not-possible")
+      else let c := s.circ.stopBegin t; ({ circ := c }, renderCirc c)
+    | none => (s, "bad-op")
+  | ["stopend", t, k] =>
+    match t.toNat?, parseBit k with
+    | some t, some k =>
+      if s.circ.phase != .stopping && s.circ.phase != .stoppingF then (s, "err not-possible")
+      else let c := s.circ.stopEnd t k; ({ circ := c }, renderCirc c)
+    | _, _ => (s, "bad-op")
   | ["stop", t] =>
     match t.toNat? with
     | some t => let c := s.circ.stop t; ({ circ := c }, renderCirc c)
